@@ -211,6 +211,17 @@ Definition is_special_part (p : str) : bool :=
 
 Record gopts := mkO { o_dot : bool; o_null : bool; o_star : bool; o_noglob : bool }.
 
+(* "for _, dir := range matches { newMatches, err = cfg.globDir(...) ; if err != nil { return nil, err } }" *)
+Fixpoint glob_dirs (fs : fsys) (matcher : str -> bool) (want_dir : bool) (ds : list str) : option (list str) :=
+  match ds with
+  | [] => Some []
+  | d :: ds' =>
+      match glob_dir fs d matcher want_dir, glob_dirs fs matcher want_dir ds' with
+      | Some (new, _), Some more => Some (new ++ more)
+      | _, _ => None
+      end
+  end.
+
 (* the component loop of Config.glob *)
 Fixpoint glob_parts (fuel : nat) (fs : fsys) (o : gopts) (parts : list str) (matches : list str) : gres :=
   match parts with
@@ -235,16 +246,7 @@ Fixpoint glob_parts (fuel : nat) (fs : fsys) (o : gopts) (parts : list str) (mat
         | Some ms => glob_parts fuel fs o rest ms
         end
       else
-        let step := fix step (ds : list str) : option (list str) :=
-          match ds with
-          | [] => Some []
-          | d :: ds' =>
-              match glob_dir fs d (comp_matcher (o_dot o) part) want_dir, step ds' with
-              | Some (new, _), Some more => Some (new ++ more)
-              | _, _ => None
-              end
-          end in
-        match step matches with
+        match glob_dirs fs (comp_matcher (o_dot o) part) want_dir matches with
         | None => GErr
         | Some ms => glob_parts fuel fs o rest ms
         end
